@@ -1,6 +1,7 @@
 //! C14 — socket transports deliver exactly what was sent (DESIGN.md §3 C14).
 mod accept;
 mod dgram;
+mod duplex;
 mod fault;
 mod stream;
 mod util;
@@ -20,5 +21,6 @@ fn main() {
     dgram::run(&mut s);
     accept::run(&mut s);
     fault::run(&mut s);
+    duplex::run(&mut s);
     s.finish();
 }
